@@ -36,8 +36,7 @@ var quickPolicies = []string{"M", "A", "R1", "R2", "R3"}
 // buildScenarios enumerates cfg rows x policies and rotates the remaining
 // dimensions (seed, landscape, mode) so that every value of each meets every
 // cfg row and every policy at least once over the list.
-func buildScenarios(rows int, policies, seeds, modes []string, fits []int, full bool) []EpochScenario {
-	var out []EpochScenario
+func buildScenarios(rows int, policies, seeds, modes []string, fits []int, full bool) (out []EpochScenario) {
 	pick := func(r, k int) string {
 		m := modes[k%len(modes)]
 		// the parallel executor serialises every baby (expensive): small populations only
@@ -46,6 +45,13 @@ func buildScenarios(rows int, policies, seeds, modes []string, fits []int, full 
 		}
 		return m
 	}
+	defer func() {
+		for i := range out {
+			if _, hb := hbSpecs[out[i].Seed]; hb {
+				out[i].Epochs = 3 // hand-built populations target the first turnovers (quotas, stealing, ageing)
+			}
+		}
+	}()
 	for r := 0; r < rows; r++ {
 		for pi, p := range policies {
 			if full {
